@@ -112,6 +112,9 @@ C02_Class(m) ==
 \cup { L2("and", <<W(m, w, KW(w)), Im(FALSE, <<69,35,1,0,0,0,0,0>>, "hex", 0)>>) : w \in {32, 64} }
 \* the same with the immediate written in decimal (its own path in the tokenizer, taken after the memory operand was parsed)
 \cup { L2(mn, <<W(m, w, KW(w)), ImDec(16)>>) : mn \in {"add", "cmp", "test", "mov"}, w \in {8, 64} }
+\* ... and with all 16 hexadecimal digits (the spelling that decides SMART narrowing for mov r64, imm and must decide nothing else)
+\cup { L2(mn, <<W(m, 64, "qword"), Im(FALSE, Small(16), "hex", 16)>>) : mn \in {"add", "cmp", "test", "mov"} }
+\cup { L2("imul", <<G(64, 3), W(m, 64, ""), Im(FALSE, Small(16), "hex", 16)>>), L2("mov", <<W(m, 32, "dword"), Im(FALSE, Small(16), "hex", 16)>>) }
 \cup { L2("mov", <<W(m, 32, "dword"), ImDec(100)>>), L2("shl", <<W(m, 64, "qword"), ImDec(5)>>), L2("imul", <<G(64, 3), W(m, 64, ""), ImDec(10)>>),
        L2("shld", <<W(m, 64, ""), G(64, 10), ImDec(3)>>), L2("rorx", <<G(64, 9), W(m, 64, ""), ImDec(7)>>),
        L2("vperm2i128", <<RegRec("y", 256, 1, FALSE), RegRec("y", 256, 2, FALSE), W(m, 256, ""), ImDec(5)>>) }
